@@ -324,7 +324,10 @@ class World:
             return self.procs.get(member['p'])      # None: not spawned (yet) - left out
         members = [built for built in (self.build_member(sub) for sub in member['members'])
                    if built is not None]
-        return env.all_of(members) if member['how'] == 'all' else env.any_of(members)
+        built = env.all_of(members) if member['how'] == 'all' else env.any_of(members)
+        members.clear()
+        members.append(env.event())
+        return built
 
     def run(self, name, steps):
         env = self.env
@@ -376,6 +379,9 @@ class World:
                         event = env.all_of(members)
                     else:
                         event = env.any_of(members)
+                    # the list belongs to the program: it goes on using it for something else
+                    members.clear()
+                    members.append(env.event())
                     self.stats['conditions_waited'] += 1
                     value = yield event
                     log.append((index, env.now, self.outcome(value)))
